@@ -469,6 +469,9 @@ Qed.
 (** * KASUMI                                                                  *)
 (* ------------------------------------------------------------------------- *)
 Ltac leak_fst := repeat (rewrite ?fst_bind, ?fst_ret; cbv beta zeta).
+(* [snd] of a bind chain, without ever unifying two different instrumented functions
+   (rewriting with explicit instances only) *)
+Ltac leak_snd_monad := repeat (rewrite ?snd_bind, ?snd_ret, ?snd_emit, ?snd_emits; cbv beta zeta).
 
 Lemma nth_repeat0 : forall n m, nth n (repeat 0 m) 0 = 0.
 Proof. induction n; destruct m; simpl; auto. Qed.
@@ -485,9 +488,6 @@ Qed.
 Lemma kasumi_S9_rows_concat : concat kasumi_S9_rows = kasumi_S9.
 Proof. unfold kasumi_S9_rows. apply concat_rows_of. rewrite kasumi_S9_length. reflexivity. Qed.
 
-Arguments kasumi_S7_rows : simpl never.
-Arguments kasumi_S9_rows : simpl never.
-
 (* for EVERY x (outside the tables both sides are 0) *)
 Lemma S7_leak_fst : forall x, fst (S7_leak x) = S7 x.
 Proof.
@@ -503,65 +503,87 @@ Lemma S7_leak_snd : forall x, snd (S7_leak x) = S7_trace.
 Proof. intros. unfold S7_leak. rewrite scan_snd. unfold kasumi_S7_rows. rewrite rows_of_length. reflexivity. Qed.
 Lemma S9_leak_snd : forall x, snd (S9_leak x) = S9_trace.
 Proof. intros. unfold S9_leak. rewrite scan_snd. unfold kasumi_S9_rows. rewrite rows_of_length. reflexivity. Qed.
-#[export] Hint Rewrite S7_leak_snd S9_leak_snd : leak.
+Opaque S7_leak S9_leak S7_trace S9_trace.
 
 Lemma kasumi_FI_leak_fst : forall x ki, fst (kasumi_FI_leak x ki) = kasumi_FI x ki.
 Proof.
   intros. unfold kasumi_FI_leak, kasumi_FI. leak_fst.
-  rewrite !S7_leak_fst, !S9_leak_fst. reflexivity.
+  repeat match goal with
+         | |- context [fst (S7_leak ?a)] => rewrite (S7_leak_fst a)
+         | |- context [fst (S9_leak ?a)] => rewrite (S9_leak_fst a)
+         end.
+  reflexivity.
 Qed.
 Lemma kasumi_FI_leak_snd : forall x ki, snd (kasumi_FI_leak x ki) = kasumi_FI_trace.
-Proof. intros. unfold kasumi_FI_leak, kasumi_FI_trace. cbv zeta. autorewrite with leak. reflexivity. Qed.
-#[export] Hint Rewrite kasumi_FI_leak_snd : leak.
-
-Lemma ks_ld_snd : forall kr i, snd (ks_ld kr i) = ks_ld_trace kr i.
-Proof. reflexivity. Qed.
-#[export] Hint Rewrite ks_ld_snd : leak.
+Proof.
+  intros. unfold kasumi_FI_leak, kasumi_FI_trace. cbv zeta. leak_snd_monad.
+  repeat match goal with
+         | |- context [snd (S7_leak ?a)] => rewrite (S7_leak_snd a)
+         | |- context [snd (S9_leak ?a)] => rewrite (S9_leak_snd a)
+         end.
+  rewrite ?app_nil_r. reflexivity.
+Qed.
+Opaque kasumi_FI_leak kasumi_FI_trace.
 
 Lemma kasumi_FL_leak_fst : forall kr sk base x,
   fst (kasumi_FL_leak kr sk base x) = kasumi_FL x (kk sk base) (kk sk (base + 1)).
 Proof. intros. unfold kasumi_FL_leak. leak_fst. reflexivity. Qed.
 Lemma kasumi_FL_leak_snd : forall kr sk base x,
   snd (kasumi_FL_leak kr sk base x) = kasumi_FL_trace kr base.
-Proof. intros. unfold kasumi_FL_leak, kasumi_FL_trace. autorewrite with leak. reflexivity. Qed.
+Proof. intros. reflexivity. Qed.
 Lemma kasumi_FO_leak_fst : forall kr sk base x,
   fst (kasumi_FO_leak kr sk base x) =
   kasumi_FO x (kk sk (base + 2)) (kk sk (base + 3)) (kk sk (base + 4)) (kk sk (base + 5))
               (kk sk (base + 6)) (kk sk (base + 7)).
 Proof.
-  intros. unfold kasumi_FO_leak, kasumi_FO. leak_fst. rewrite !kasumi_FI_leak_fst. reflexivity.
+  intros. unfold kasumi_FO_leak, kasumi_FO. leak_fst.
+  repeat match goal with
+         | |- context [fst (kasumi_FI_leak ?a ?b)] => rewrite (kasumi_FI_leak_fst a b)
+         end.
+  reflexivity.
 Qed.
 Lemma kasumi_FO_leak_snd : forall kr sk base x,
   snd (kasumi_FO_leak kr sk base x) = kasumi_FO_trace kr base.
 Proof.
-  intros. unfold kasumi_FO_leak, kasumi_FO_trace. cbv zeta. autorewrite with leak.
-  rewrite <- ?app_assoc. reflexivity.
+  intros. unfold kasumi_FO_leak, kasumi_FO_trace. cbv zeta. leak_snd_monad.
+  repeat match goal with
+         | |- context [snd (kasumi_FI_leak ?a ?b)] => rewrite (kasumi_FI_leak_snd a b)
+         end.
+  unfold ks_ld, ks_ld_trace. rewrite ?snd_emit, ?app_nil_r, <- ?app_assoc. reflexivity.
 Qed.
-#[export] Hint Rewrite kasumi_FL_leak_snd kasumi_FO_leak_snd : leak.
+Opaque kasumi_FL_leak kasumi_FO_leak kasumi_FL_trace kasumi_FO_trace.
 
 Lemma kasumi_rounds_leak_snd : forall kr sk n base l r,
   snd (kasumi_rounds_leak kr sk n base l r) = kasumi_rounds_trace kr n base.
 Proof.
   induction n as [|n IH]; intros base l r; cbn [kasumi_rounds_leak kasumi_rounds_trace].
   - reflexivity.
-  - cbv zeta. autorewrite with leak. rewrite IH. rewrite <- ?app_assoc. reflexivity.
+  - cbv zeta. leak_snd_monad.
+    repeat match goal with
+           | |- context [snd (kasumi_FL_leak ?a ?b ?c ?d)] => rewrite (kasumi_FL_leak_snd a b c d)
+           | |- context [snd (kasumi_FO_leak ?a ?b ?c ?d)] => rewrite (kasumi_FO_leak_snd a b c d)
+           end.
+    rewrite IH. rewrite <- ?app_assoc. reflexivity.
 Qed.
 Lemma kasumi_enc_leak_snd : forall kr sk x, snd (kasumi_enc_leak kr sk x) = kasumi_enc_trace kr.
 Proof.
-  intros. unfold kasumi_enc_leak, kasumi_enc_trace. autorewrite with leak.
+  intros. unfold kasumi_enc_leak, kasumi_enc_trace. leak_snd_monad. rewrite app_nil_r.
   apply kasumi_rounds_leak_snd.
 Qed.
-#[export] Hint Rewrite kasumi_enc_leak_snd : leak.
 
-(* one step of the Spec's round loop on a schedule that starts with 16 words *)
+(* the Spec's round loop on a schedule that starts with 16 words *)
 Lemma kasumi_rounds_leak_fst : forall kr n pre sk l r,
   length sk = (16 * n)%nat ->
   fst (kasumi_rounds_leak kr (pre ++ sk) n (length pre) l r) = kasumi_rounds n sk l r.
 Proof.
   induction n as [|n IH]; intros pre sk l r Hlen; cbn [kasumi_rounds_leak kasumi_rounds].
   - reflexivity.
-  - do 16 (destruct sk as [|? sk]; [discriminate Hlen|]).
-    leak_fst. rewrite !kasumi_FL_leak_fst, !kasumi_FO_leak_fst.
+  - do 16 (destruct sk as [|? sk]; [exfalso; simpl in Hlen; lia|]).
+    leak_fst.
+    repeat match goal with
+           | |- context [fst (kasumi_FL_leak ?a ?b ?c ?d)] => rewrite (kasumi_FL_leak_fst a b c d)
+           | |- context [fst (kasumi_FO_leak ?a ?b ?c ?d)] => rewrite (kasumi_FO_leak_fst a b c d)
+           end.
     unfold kk. rewrite !app_nth2 by lia.
     replace (length pre + 8 + 1 - length pre)%nat with 9%nat by lia.
     replace (length pre + 8 + 2 - length pre)%nat with 10%nat by lia.
@@ -603,6 +625,7 @@ Proof.
   rewrite kasumi_rounds_leak_fst by exact H.
   destruct (kasumi_rounds 4 sk (w32 (N.shiftr x 32)) (w32 x)). reflexivity.
 Qed.
+Opaque kasumi_enc_leak kasumi_enc_trace.
 
 (** ** f8 / f9 *)
 Lemma kasumi_f8_ks_leak_fst : forall dt n i sk a prev cnt, length sk = 64%nat ->
@@ -610,14 +633,14 @@ Lemma kasumi_f8_ks_leak_fst : forall dt n i sk a prev cnt, length sk = 64%nat ->
 Proof.
   induction n as [|n IH]; intros i sk a prev cnt H; cbn [kasumi_f8_ks_leak kasumi_f8_ks_loop].
   - reflexivity.
-  - leak_fst. rewrite kasumi_enc_leak_fst by exact H. rewrite IH by exact H. reflexivity.
+  - leak_fst. rewrite (kasumi_enc_leak_fst 0 sk) by exact H. rewrite IH by exact H. reflexivity.
 Qed.
 Lemma kasumi_f8_ks_leak_snd : forall dt n i sk a prev cnt,
   snd (kasumi_f8_ks_leak dt i n sk a prev cnt) = kasumi_f8_ks_trace dt i n.
 Proof.
   induction n as [|n IH]; intros i sk a prev cnt; cbn [kasumi_f8_ks_leak kasumi_f8_ks_trace].
   - reflexivity.
-  - autorewrite with leak. rewrite IH. reflexivity.
+  - leak_snd_monad. rewrite (kasumi_enc_leak_snd 0 sk), IH, app_nil_r. reflexivity.
 Qed.
 
 Theorem kasumi_f8_leak_fst : forall inplace sk msk iv src dst bitlen bitoff,
@@ -625,13 +648,14 @@ Theorem kasumi_f8_leak_fst : forall inplace sk msk iv src dst bitlen bitoff,
   fst (kasumi_f8_leak inplace sk msk iv src dst bitlen bitoff) = kasumi_f8_sk sk msk iv src dst bitlen bitoff.
 Proof.
   intros. unfold kasumi_f8_leak, kasumi_f8_sk. leak_fst.
-  rewrite kasumi_enc_leak_fst by assumption. rewrite kasumi_f8_ks_leak_fst by assumption. reflexivity.
+  rewrite (kasumi_enc_leak_fst 1 msk) by assumption. rewrite kasumi_f8_ks_leak_fst by assumption.
+  reflexivity.
 Qed.
 Theorem kasumi_f8_leak_snd : forall inplace sk msk iv src dst bitlen bitoff,
   snd (kasumi_f8_leak inplace sk msk iv src dst bitlen bitoff) = kasumi_f8_trace inplace bitlen bitoff.
 Proof.
-  intros. unfold kasumi_f8_leak, kasumi_f8_trace. autorewrite with leak.
-  rewrite kasumi_f8_ks_leak_snd. reflexivity.
+  intros. unfold kasumi_f8_leak, kasumi_f8_trace. leak_snd_monad.
+  rewrite (kasumi_enc_leak_snd 1 msk), kasumi_f8_ks_leak_snd, app_nil_r. reflexivity.
 Qed.
 
 Lemma kasumi_key_schedule_length : forall key, length (kasumi_key_schedule key) = 64%nat.
@@ -663,7 +687,7 @@ Lemma kasumi_f9_loop_leak_fst : forall sk blocks i lens a b, length sk = 64%nat 
 Proof.
   induction blocks as [|p t IH]; intros i lens a b H; cbn [kasumi_f9_loop_leak kasumi_f9_loop].
   - reflexivity.
-  - leak_fst. rewrite kasumi_enc_leak_fst by exact H.
+  - leak_fst. rewrite (kasumi_enc_leak_fst 0 sk) by exact H.
     destruct (Nat.eqb (hd 0%nat lens) 8).
     + apply IH. exact H.
     + reflexivity.
@@ -674,22 +698,24 @@ Lemma kasumi_f9_loop_leak_snd : forall sk (f : bytes -> N) cs i a b,
 Proof.
   induction cs as [|c t IH]; intros i a b; cbn [map kasumi_f9_loop_leak kasumi_f9_loop_trace hd tl].
   - reflexivity.
-  - cbv zeta. destruct (Nat.eqb (length c) 8); autorewrite with leak.
+  - cbv zeta. destruct (Nat.eqb (length c) 8); leak_snd_monad;
+      rewrite (kasumi_enc_leak_snd 0 sk).
     + rewrite IH. reflexivity.
-    + reflexivity.
+    + rewrite ?app_nil_r. reflexivity.
 Qed.
 
 Theorem kasumi_f9_leak_fst : forall sk msk msg, length sk = 64%nat -> length msk = 64%nat ->
   fst (kasumi_f9_leak sk msk msg) = kasumi_f9_sk sk msk msg.
 Proof.
   intros. unfold kasumi_f9_leak, kasumi_f9_sk. leak_fst.
-  rewrite kasumi_f9_loop_leak_fst by assumption. rewrite kasumi_enc_leak_fst by assumption. reflexivity.
+  rewrite kasumi_f9_loop_leak_fst by assumption. rewrite (kasumi_enc_leak_fst 1 msk) by assumption.
+  reflexivity.
 Qed.
 Theorem kasumi_f9_leak_snd : forall sk msk msg,
   snd (kasumi_f9_leak sk msk msg) = kasumi_f9_trace (length msg).
 Proof.
-  intros. unfold kasumi_f9_leak, kasumi_f9_trace. cbv zeta. autorewrite with leak.
-  rewrite kasumi_f9_loop_leak_snd, chunks_lens. reflexivity.
+  intros. unfold kasumi_f9_leak, kasumi_f9_trace. cbv zeta. leak_snd_monad.
+  rewrite kasumi_f9_loop_leak_snd, chunks_lens, (kasumi_enc_leak_snd 1 msk), app_nil_r. reflexivity.
 Qed.
 Lemma kasumi_f9_sk_spec : forall key msg,
   kasumi_f9_sk (kasumi_key_schedule key) (kasumi_key_schedule (kasumi_mod_key 0xAA key)) msg =
@@ -765,7 +791,6 @@ Qed.
 
 Lemma snow3g_SQ_rows_concat : concat snow3g_SQ_rows = snow3g_SQ.
 Proof. unfold snow3g_SQ_rows. apply concat_rows_of. vm_compute. reflexivity. Qed.
-Arguments snow3g_SQ_rows : simpl never.
 
 Lemma snow3g_S2_leak_fst : forall w, fst (snow3g_S2_leak w) = snow3g_S2 w.
 Proof.
@@ -775,8 +800,8 @@ Proof.
 Qed.
 Lemma snow3g_S2_leak_snd : forall w, snd (snow3g_S2_leak w) = scan_trace R_snow3g_S2 SITE_UNROLLED 16 0.
 Proof.
-  intros. unfold snow3g_S2_leak. autorewrite with leak. unfold snow3g_SQ_rows.
-  rewrite rows_of_length. reflexivity.
+  intros. unfold snow3g_S2_leak. leak_snd_monad. rewrite scan_vec_snd, app_nil_r.
+  unfold snow3g_SQ_rows. rewrite rows_of_length. reflexivity.
 Qed.
 Lemma snow3g_mula_leak_fst : forall c,
   fst (snow3g_mula_leak c) = snow3g_bt_lookup snow3g_MULa_tree c.
@@ -791,10 +816,10 @@ Proof.
   rewrite nib_lookup_DIVa by apply w8_lt. rewrite bt_lookup_DIVa. reflexivity.
 Qed.
 Lemma snow3g_mula_leak_snd : forall c, snd (snow3g_mula_leak c) = alpha_trace R_snow3g_mula.
-Proof. intros. unfold snow3g_mula_leak. autorewrite with leak. reflexivity. Qed.
+Proof. intros. unfold snow3g_mula_leak. leak_snd_monad. apply app_nil_r. Qed.
 Lemma snow3g_diva_leak_snd : forall c, snd (snow3g_diva_leak c) = alpha_trace R_snow3g_diva.
-Proof. intros. unfold snow3g_diva_leak. autorewrite with leak. reflexivity. Qed.
-#[export] Hint Rewrite snow3g_S2_leak_snd snow3g_mula_leak_snd snow3g_diva_leak_snd : leak.
+Proof. intros. unfold snow3g_diva_leak. leak_snd_monad. apply app_nil_r. Qed.
+Opaque snow3g_S2_leak snow3g_mula_leak snow3g_diva_leak alpha_trace.
 
 Lemma bt_lookup_DIVa_w8 : forall x,
   snow3g_bt_lookup snow3g_DIVa_tree (w8 x) = snow3g_bt_lookup snow3g_DIVa_tree x.
@@ -804,7 +829,345 @@ Lemma snow3g_lfsr_step_leak_fst : forall s f,
   fst (snow3g_lfsr_step_leak s f) = snow3g_lfsr_step s f.
 Proof.
   intros. unfold snow3g_lfsr_step_leak, snow3g_lfsr_step. leak_fst.
-  rewrite snow3g_mula_leak_fst, snow3g_diva_leak_fst.
-  do 17 (destruct s as [|? s]; [reflexivity|]).
+  rewrite (snow3g_mula_leak_fst (N.shiftr (hd 0 s) 24)), (snow3g_diva_leak_fst (nth 11 s 0)).
+  do 16 (destruct s as [|? s]; [reflexivity|]).
+  destruct s; [|reflexivity].
+  cbn [hd nth]. rewrite bt_lookup_DIVa_w8. reflexivity.
+Qed.
+Lemma snow3g_lfsr_step_leak_snd : forall s f,
+  snd (snow3g_lfsr_step_leak s f) = alpha_trace R_snow3g_mula ++ alpha_trace R_snow3g_diva.
+Proof.
+  intros. unfold snow3g_lfsr_step_leak. leak_snd_monad.
+  rewrite (snow3g_mula_leak_snd (N.shiftr (hd 0 s) 24)), (snow3g_diva_leak_snd (nth 11 s 0)), app_nil_r.
+  reflexivity.
+Qed.
+
+Lemma snow3g_fsm_step_leak_fst : forall st, fst (snow3g_fsm_step_leak st) = snow3g_fsm_step st.
+Proof.
+  intros. unfold snow3g_fsm_step_leak, snow3g_fsm_step. leak_fst.
+  rewrite (snow3g_S2_leak_fst (snow3g_r2 st)). reflexivity.
+Qed.
+Lemma snow3g_fsm_step_leak_snd : forall st,
+  snd (snow3g_fsm_step_leak st) = scan_trace R_snow3g_S2 SITE_UNROLLED 16 0.
+Proof.
+  intros. unfold snow3g_fsm_step_leak. leak_snd_monad.
+  rewrite (snow3g_S2_leak_snd (snow3g_r2 st)), app_nil_r. reflexivity.
+Qed.
+Opaque snow3g_lfsr_step_leak snow3g_fsm_step_leak.
+
+Lemma snow3g_init_round_leak_fst : forall st, fst (snow3g_init_round_leak st) = snow3g_init_round st.
+Proof.
+  intros. unfold snow3g_init_round_leak, snow3g_init_round. leak_fst.
+  rewrite (snow3g_fsm_step_leak_fst st).
+  destruct (snow3g_fsm_step st) as [[[f r1] r2] r3]. cbn [fst snd].
+  rewrite (snow3g_lfsr_step_leak_fst (snow3g_lfsr st) f). reflexivity.
+Qed.
+Lemma snow3g_ks_round_leak_fst : forall st, fst (snow3g_ks_round_leak st) = snow3g_ks_round st.
+Proof.
+  intros. unfold snow3g_ks_round_leak, snow3g_ks_round. leak_fst.
+  rewrite (snow3g_fsm_step_leak_fst st).
+  destruct (snow3g_fsm_step st) as [[[f r1] r2] r3]. cbn [fst snd].
+  rewrite (snow3g_lfsr_step_leak_fst (snow3g_lfsr st) 0). reflexivity.
+Qed.
+Lemma snow3g_init_round_leak_snd : forall st, snd (snow3g_init_round_leak st) = snow3g_clock_trace.
+Proof.
+  intros. unfold snow3g_init_round_leak, snow3g_clock_trace. leak_snd_monad.
+  rewrite (snow3g_fsm_step_leak_snd st).
+  match goal with |- context [snd (snow3g_lfsr_step_leak ?a ?b)] => rewrite (snow3g_lfsr_step_leak_snd a b) end.
+  rewrite app_nil_r. reflexivity.
+Qed.
+Lemma snow3g_ks_round_leak_snd : forall st, snd (snow3g_ks_round_leak st) = snow3g_clock_trace.
+Proof.
+  intros. unfold snow3g_ks_round_leak, snow3g_clock_trace. leak_snd_monad.
+  rewrite (snow3g_fsm_step_leak_snd st).
+  match goal with |- context [snd (snow3g_lfsr_step_leak ?a ?b)] => rewrite (snow3g_lfsr_step_leak_snd a b) end.
+  rewrite app_nil_r. reflexivity.
+Qed.
+Opaque snow3g_init_round_leak snow3g_ks_round_leak snow3g_clock_trace snow3g_clock_trace_c.
+
+Lemma iterM_fst : forall {A} n (f : A -> M A) (g : A -> A) x,
+  (forall y, fst (f y) = g y) -> fst (iterM n f x) = iter n g x.
+Proof.
+  induction n as [|n IH]; intros f g x H; cbn [iterM iter].
   - reflexivity.
+  - leak_fst. rewrite H. apply IH. exact H.
+Qed.
+Lemma iterM_snd : forall {A} n (f : A -> M A) t x,
+  (forall y, snd (f y) = t) -> snd (iterM n f x) = concat (repeat t n).
+Proof.
+  induction n as [|n IH]; intros f t x H; cbn [iterM repeat concat].
+  - reflexivity.
+  - leak_snd_monad. rewrite H. rewrite (IH f t) by exact H. reflexivity.
+Qed.
+Lemma iter_pair : forall {A} n (f : A -> A) x, iter n (fun y => f (f y)) x = iter (n + n) f x.
+Proof.
+  induction n as [|n IH]; intros f x.
+  - reflexivity.
+  - replace (S n + S n)%nat with (S (S (n + n))) by lia. cbn [iter]. apply IH.
+Qed.
+
+Lemma snow3g_init_leak_fst : forall s, fst (snow3g_init_leak s) = snow3g_init s.
+Proof.
+  intros. unfold snow3g_init_leak, snow3g_init. leak_fst.
+  rewrite (iterM_fst 32 snow3g_init_round_leak snow3g_init_round) by apply snow3g_init_round_leak_fst.
+  match goal with |- context [fst (snow3g_ks_round_leak ?a)] => rewrite (snow3g_ks_round_leak_fst a) end.
+  reflexivity.
+Qed.
+Lemma snow3g_init_leak_snd : forall s, snd (snow3g_init_leak s) = concat (repeat snow3g_clock_trace 33).
+Proof.
+  intros. unfold snow3g_init_leak. leak_snd_monad.
+  rewrite (iterM_snd 32 snow3g_init_round_leak snow3g_clock_trace) by apply snow3g_init_round_leak_snd.
+  match goal with |- context [snd (snow3g_ks_round_leak ?a)] => rewrite (snow3g_ks_round_leak_snd a) end.
+  rewrite app_nil_r.
+  change 33%nat with (32 + 1)%nat. rewrite repeat_app, concat_app. cbn [repeat concat].
+  rewrite app_nil_r. reflexivity.
+Qed.
+Lemma snow3g_gen_leak_fst : forall n st, fst (snow3g_gen_leak n st) = snow3g_gen n st.
+Proof.
+  induction n as [|n IH]; intros st; cbn [snow3g_gen_leak snow3g_gen].
+  - reflexivity.
+  - leak_fst. rewrite (snow3g_ks_round_leak_fst st).
+    destruct (snow3g_ks_round st) as [z st']. cbn [fst snd]. rewrite IH. reflexivity.
+Qed.
+Lemma snow3g_gen_leak_snd : forall n st, snd (snow3g_gen_leak n st) = concat (repeat snow3g_clock_trace n).
+Proof.
+  induction n as [|n IH]; intros st; cbn [snow3g_gen_leak repeat concat].
+  - reflexivity.
+  - leak_snd_monad. rewrite (snow3g_ks_round_leak_snd st), IH, app_nil_r. reflexivity.
+Qed.
+
+(* C path *)
+Lemma snow3g_init_c_leak_fst : forall s, fst (snow3g_init_c_leak s) = snow3g_init s.
+Proof.
+  intros. unfold snow3g_init_c_leak, snow3g_init. leak_fst.
+  rewrite (iterM_fst 16 snow3g_init_round2_leak (fun st => snow3g_init_round (snow3g_init_round st))).
+  - rewrite iter_pair. change (16 + 16)%nat with 32%nat.
+    unfold snow3g_ks_round1_c_leak. cbn [fst].
+    match goal with |- context [fst (snow3g_ks_round_leak ?a)] => rewrite (snow3g_ks_round_leak_fst a) end.
+    reflexivity.
+  - intros y. unfold snow3g_init_round2_leak. cbn [fst].
+    rewrite (snow3g_init_round_leak_fst y).
+    match goal with |- context [fst (snow3g_init_round_leak ?a)] => rewrite (snow3g_init_round_leak_fst a) end.
+    reflexivity.
+Qed.
+Lemma snow3g_init_c_leak_snd : forall s, snd (snow3g_init_c_leak s) = concat (repeat snow3g_clock_trace_c 17).
+Proof.
+  intros. unfold snow3g_init_c_leak. leak_snd_monad.
+  rewrite (iterM_snd 16 snow3g_init_round2_leak snow3g_clock_trace_c) by reflexivity.
+  unfold snow3g_ks_round1_c_leak. cbn [snd]. rewrite app_nil_r.
+  change 17%nat with (16 + 1)%nat. rewrite repeat_app, concat_app. cbn [repeat concat].
+  rewrite app_nil_r. reflexivity.
+Qed.
+Lemma snow3g_gen_c_leak_fst : forall n st,
+  fst (snow3g_gen_c_leak n st) = snow3g_gen n st /\
+  fst (snow3g_gen_c_leak (S n) st) = snow3g_gen (S n) st.
+Proof.
+  induction n as [|n IH]; intros st.
+  - split; [reflexivity|].
+    cbn [snow3g_gen_c_leak snow3g_gen]. leak_fst. unfold snow3g_ks_round1_c_leak. cbn [fst].
+    rewrite (snow3g_ks_round_leak_fst st). destruct (snow3g_ks_round st). reflexivity.
+  - split; [apply IH|].
+    cbn [snow3g_gen_c_leak snow3g_gen]. leak_fst. unfold snow3g_ks_round2_leak. cbv zeta. cbn [fst snd].
+    rewrite (snow3g_ks_round_leak_fst st). destruct (snow3g_ks_round st) as [z0 st1]. cbn [fst snd].
+    rewrite (snow3g_ks_round_leak_fst st1). destruct (snow3g_ks_round st1) as [z1 st2]. cbn [fst snd].
+    rewrite (proj1 (IH st2)). reflexivity.
+Qed.
+Lemma snow3g_gen_c_leak_snd : forall n st,
+  snd (snow3g_gen_c_leak n st) = gen_c_trace n /\
+  snd (snow3g_gen_c_leak (S n) st) = gen_c_trace (S n).
+Proof.
+  induction n as [|n IH]; intros st.
+  - split; [reflexivity|].
+    cbn [snow3g_gen_c_leak gen_c_trace]. leak_snd_monad. unfold snow3g_ks_round1_c_leak. cbn [snd].
+    apply app_nil_r.
+  - split; [apply IH|].
+    cbn [snow3g_gen_c_leak gen_c_trace]. leak_snd_monad. unfold snow3g_ks_round2_leak. cbv zeta. cbn [fst snd].
+    match goal with |- context [snd (snow3g_gen_c_leak n ?a)] => rewrite (proj1 (IH a)) end.
+    rewrite app_nil_r. reflexivity.
+Qed.
+Opaque snow3g_init_leak snow3g_init_c_leak.
+
+(** ** the jobs *)
+Lemma snow3g_uea2_post_spec : forall key iv src dst bitlen bitoff,
+  snow3g_uea2_post (snow3g_keystream key iv (snow3g_nwords bitlen)) src dst bitlen bitoff =
+  snow3g_uea2_job key iv src dst bitlen bitoff.
+Proof. intros. reflexivity. Qed.
+Lemma snow3g_keystream_state0 : forall key iv n,
+  snow3g_gen n (snow3g_init (snow3g_state0 key iv)) = snow3g_keystream key iv n.
+Proof. intros. reflexivity. Qed.
+
+Theorem snow3g_uea2_leak_fst : forall key iv src dst bitlen bitoff,
+  fst (snow3g_uea2_leak key iv src dst bitlen bitoff) = snow3g_uea2_job key iv src dst bitlen bitoff.
+Proof.
+  intros. rewrite <- snow3g_uea2_post_spec, <- snow3g_keystream_state0.
+  unfold snow3g_uea2_leak. cbv zeta. leak_fst.
+  destruct ((N.land bitlen 7 =? 0) && (N.land bitoff 7 =? 0))%bool; leak_fst.
+  - rewrite (snow3g_init_leak_fst (snow3g_state0 key iv)), snow3g_gen_leak_fst. reflexivity.
+  - rewrite (snow3g_init_c_leak_fst (snow3g_state0 key iv)).
+    rewrite (proj1 (snow3g_gen_c_leak_fst (snow3g_nwords bitlen) _)). reflexivity.
+Qed.
+Theorem snow3g_uea2_leak_snd : forall key iv src dst bitlen bitoff,
+  snd (snow3g_uea2_leak key iv src dst bitlen bitoff) = snow3g_uea2_trace bitlen bitoff.
+Proof.
+  intros. unfold snow3g_uea2_leak, snow3g_uea2_trace. cbv zeta. leak_snd_monad.
+  destruct ((N.land bitlen 7 =? 0) && (N.land bitoff 7 =? 0))%bool; leak_snd_monad.
+  - rewrite (snow3g_init_leak_snd (snow3g_state0 key iv)), snow3g_gen_leak_snd.
+    rewrite app_nil_r, repeat_app, concat_app, <- !app_assoc. reflexivity.
+  - rewrite (snow3g_init_c_leak_snd (snow3g_state0 key iv)).
+    rewrite (proj1 (snow3g_gen_c_leak_snd (snow3g_nwords bitlen) _)).
+    rewrite app_nil_r. reflexivity.
+Qed.
+
+Lemma snow3g_uia2_post_spec : forall key iv msg bitlen,
+  snow3g_uia2_post (snow3g_keystream key iv 5) msg bitlen = snow3g_uia2 key iv msg bitlen.
+Proof. intros. reflexivity. Qed.
+Theorem snow3g_uia2_leak_fst : forall key iv msg bitlen,
+  fst (snow3g_uia2_leak key iv msg bitlen) = snow3g_uia2 key iv msg bitlen.
+Proof.
+  intros. rewrite <- snow3g_uia2_post_spec, <- snow3g_keystream_state0.
+  unfold snow3g_uia2_leak. leak_fst.
+  rewrite (snow3g_init_leak_fst (snow3g_state0 key iv)), snow3g_gen_leak_fst. reflexivity.
+Qed.
+Theorem snow3g_uia2_leak_snd : forall key iv msg bitlen,
+  snd (snow3g_uia2_leak key iv msg bitlen) = snow3g_uia2_trace bitlen.
+Proof.
+  intros. unfold snow3g_uia2_leak, snow3g_uia2_trace. leak_snd_monad.
+  rewrite (snow3g_init_leak_snd (snow3g_state0 key iv)), snow3g_gen_leak_snd.
+  rewrite app_nil_r. change 38%nat with (33 + 5)%nat. rewrite repeat_app, concat_app, <- !app_assoc.
+  reflexivity.
+Qed.
+
+(* ------------------------------------------------------------------------- *)
+(** * The C19 statements                                                      *)
+(* ------------------------------------------------------------------------- *)
+(* The trace of a job is the same for ANY two keys / key schedules (and, as a by-product, for
+   any two IVs and any two messages of the same length): it is a function of the public
+   quantities (lengths, offsets, direction, in-place flag) alone. *)
+Theorem des_trace_key_independent_ks : forall ks1 ks2 iv1 iv2 msg1 msg2,
+  length ks1 = length ks2 -> length msg1 = length msg2 ->
+  snd (des_cbc_enc_leak ks1 iv1 msg1) = snd (des_cbc_enc_leak ks2 iv2 msg2) /\
+  snd (des_cbc_dec_leak ks1 iv1 msg1) = snd (des_cbc_dec_leak ks2 iv2 msg2).
+Proof.
+  intros ks1 ks2 iv1 iv2 msg1 msg2 Hk Hm.
+  rewrite !des_cbc_enc_leak_snd, !des_cbc_dec_leak_snd, Hk, Hm. split; reflexivity.
+Qed.
+Theorem des_trace_key_independent : forall key1 key2 iv1 iv2 msg1 msg2,
+  length msg1 = length msg2 ->
+  snd (des_cbc_enc_leak (des_key_schedule_std key1) iv1 msg1) =
+  snd (des_cbc_enc_leak (des_key_schedule_std key2) iv2 msg2) /\
+  snd (des_cbc_dec_leak (des_key_schedule_std key1) iv1 msg1) =
+  snd (des_cbc_dec_leak (des_key_schedule_std key2) iv2 msg2).
+Proof.
+  intros. apply des_trace_key_independent_ks; [|assumption].
+  rewrite !des_key_schedule_std_length. reflexivity.
+Qed.
+
+Theorem des3_trace_key_independent_ks : forall a1 a2 a3 b1 b2 b3 iv1 iv2 msg1 msg2,
+  length a1 = length b1 -> length a2 = length b2 -> length a3 = length b3 ->
+  length msg1 = length msg2 ->
+  snd (des3_cbc_enc_leak a1 a2 a3 iv1 msg1) = snd (des3_cbc_enc_leak b1 b2 b3 iv2 msg2) /\
+  snd (des3_cbc_dec_leak a1 a2 a3 iv1 msg1) = snd (des3_cbc_dec_leak b1 b2 b3 iv2 msg2).
+Proof.
+  intros a1 a2 a3 b1 b2 b3 iv1 iv2 msg1 msg2 H1 H2 H3 Hm.
+  rewrite !des3_cbc_enc_leak_snd, !des3_cbc_dec_leak_snd, H1, H2, H3, Hm. split; reflexivity.
+Qed.
+Theorem des3_trace_key_independent : forall k1 k2 k3 k1' k2' k3' iv1 iv2 msg1 msg2,
+  length msg1 = length msg2 ->
+  snd (des3_cbc_enc_leak (des_key_schedule_std k1) (des_key_schedule_std k2) (des_key_schedule_std k3) iv1 msg1) =
+  snd (des3_cbc_enc_leak (des_key_schedule_std k1') (des_key_schedule_std k2') (des_key_schedule_std k3') iv2 msg2) /\
+  snd (des3_cbc_dec_leak (des_key_schedule_std k1) (des_key_schedule_std k2) (des_key_schedule_std k3) iv1 msg1) =
+  snd (des3_cbc_dec_leak (des_key_schedule_std k1') (des_key_schedule_std k2') (des_key_schedule_std k3') iv2 msg2).
+Proof.
+  intros. apply des3_trace_key_independent_ks; try assumption;
+    rewrite !des_key_schedule_std_length; reflexivity.
+Qed.
+
+Theorem docsis_des_trace_key_independent_ks : forall ks1 ks2 iv1 iv2 msg1 msg2,
+  length ks1 = length ks2 -> length msg1 = length msg2 ->
+  snd (docsis_des_enc_leak ks1 iv1 msg1) = snd (docsis_des_enc_leak ks2 iv2 msg2) /\
+  snd (docsis_des_dec_leak ks1 iv1 msg1) = snd (docsis_des_dec_leak ks2 iv2 msg2).
+Proof.
+  intros ks1 ks2 iv1 iv2 msg1 msg2 Hk Hm.
+  rewrite !docsis_des_enc_leak_snd, !docsis_des_dec_leak_snd, Hk, Hm. split; reflexivity.
+Qed.
+Theorem docsis_des_trace_key_independent : forall key1 key2 iv1 iv2 msg1 msg2,
+  length msg1 = length msg2 ->
+  snd (docsis_des_enc_leak (des_key_schedule_std key1) iv1 msg1) =
+  snd (docsis_des_enc_leak (des_key_schedule_std key2) iv2 msg2) /\
+  snd (docsis_des_dec_leak (des_key_schedule_std key1) iv1 msg1) =
+  snd (docsis_des_dec_leak (des_key_schedule_std key2) iv2 msg2).
+Proof.
+  intros. apply docsis_des_trace_key_independent_ks; [|assumption].
+  rewrite !des_key_schedule_std_length. reflexivity.
+Qed.
+
+(* KASUMI: any two pairs of schedules (any lists at all), any IVs, any buffers *)
+Theorem kasumi_f8_trace_key_independent : forall inplace sk1 msk1 sk2 msk2 iv1 iv2 src1 src2 dst1 dst2 bitlen bitoff,
+  snd (kasumi_f8_leak inplace sk1 msk1 iv1 src1 dst1 bitlen bitoff) =
+  snd (kasumi_f8_leak inplace sk2 msk2 iv2 src2 dst2 bitlen bitoff).
+Proof. intros. rewrite !kasumi_f8_leak_snd. reflexivity. Qed.
+Theorem kasumi_f9_trace_key_independent : forall sk1 msk1 sk2 msk2 msg1 msg2,
+  length msg1 = length msg2 ->
+  snd (kasumi_f9_leak sk1 msk1 msg1) = snd (kasumi_f9_leak sk2 msk2 msg2).
+Proof. intros. rewrite !kasumi_f9_leak_snd. congruence. Qed.
+
+(* SNOW3G: any two keys, IVs, buffers *)
+Theorem snow3g_uea2_trace_key_independent : forall key1 key2 iv1 iv2 src1 src2 dst1 dst2 bitlen bitoff,
+  snd (snow3g_uea2_leak key1 iv1 src1 dst1 bitlen bitoff) =
+  snd (snow3g_uea2_leak key2 iv2 src2 dst2 bitlen bitoff).
+Proof. intros. rewrite !snow3g_uea2_leak_snd. reflexivity. Qed.
+Theorem snow3g_uia2_trace_key_independent : forall key1 key2 iv1 iv2 msg1 msg2 bitlen,
+  snd (snow3g_uia2_leak key1 iv1 msg1 bitlen) = snd (snow3g_uia2_leak key2 iv2 msg2 bitlen).
+Proof. intros. rewrite !snow3g_uia2_leak_snd. reflexivity. Qed.
+
+(* lookup_scan_correct, for the three scan geometries used by the library, in terms of the
+   tables of the Spec files *)
+Theorem lookup_scan_correct :
+  (forall r site rows idx, fst (scan r site rows idx) = nth idx (concat rows) 0) /\
+  (forall j Sb b, fst (scan (R_des_sbox j) SITE_LOOKUP32 (des_sbox_rows Sb) (N.to_nat (N.land b 63))) =
+                  des_sbox_lookup Sb (N.land b 63)) /\
+  (forall x, fst (S7_leak x) = S7 x) /\ (forall x, fst (S9_leak x) = S9 x) /\
+  (forall w, fst (snow3g_S2_leak w) = snow3g_S2 w).
+Proof.
+  repeat split.
+  - apply scan_correct.
+  - apply des_sbox_scan.
+  - apply S7_leak_fst.
+  - apply S9_leak_fst.
+  - apply snow3g_S2_leak_fst.
+Qed.
+
+(* leak_model_eq_spec: the instrumented functions compute the Spec functions *)
+Theorem leak_model_eq_spec :
+  (forall key iv msg, fst (des_cbc_enc_leak (des_key_schedule_std key) iv msg) = des_cbc_enc key iv msg) /\
+  (forall key iv msg, fst (des_cbc_dec_leak (des_key_schedule_std key) iv msg) = des_cbc_dec key iv msg) /\
+  (forall k1 k2 k3 iv msg,
+     fst (des3_cbc_enc_leak (des_key_schedule_std k1) (des_key_schedule_std k2) (des_key_schedule_std k3) iv msg)
+     = des3_cbc_enc k1 k2 k3 iv msg) /\
+  (forall k1 k2 k3 iv msg,
+     fst (des3_cbc_dec_leak (des_key_schedule_std k1) (des_key_schedule_std k2) (des_key_schedule_std k3) iv msg)
+     = des3_cbc_dec k1 k2 k3 iv msg) /\
+  (forall key iv msg, fst (docsis_des_enc_leak (des_key_schedule_std key) iv msg) = docsis_des_enc key iv msg) /\
+  (forall key iv msg, fst (docsis_des_dec_leak (des_key_schedule_std key) iv msg) = docsis_des_dec key iv msg) /\
+  (forall inplace key iv src dst bitlen bitoff,
+     fst (kasumi_f8_leak inplace (kasumi_key_schedule key) (kasumi_key_schedule (kasumi_mod_key 0x55 key))
+                         iv src dst bitlen bitoff) = kasumi_f8_job key iv src dst bitlen bitoff) /\
+  (forall key msg,
+     fst (kasumi_f9_leak (kasumi_key_schedule key) (kasumi_key_schedule (kasumi_mod_key 0xAA key)) msg)
+     = kasumi_f9 key msg) /\
+  (forall key iv src dst bitlen bitoff,
+     fst (snow3g_uea2_leak key iv src dst bitlen bitoff) = snow3g_uea2_job key iv src dst bitlen bitoff) /\
+  (forall key iv msg bitlen, fst (snow3g_uia2_leak key iv msg bitlen) = snow3g_uia2 key iv msg bitlen).
+Proof.
+  repeat split; intros.
+  - apply des_cbc_enc_leak_spec.
+  - apply des_cbc_dec_leak_spec.
+  - apply des3_cbc_enc_leak_spec.
+  - apply des3_cbc_dec_leak_spec.
+  - apply docsis_des_enc_leak_spec.
+  - apply docsis_des_dec_leak_spec.
+  - apply kasumi_f8_leak_spec.
+  - apply kasumi_f9_leak_spec.
+  - apply snow3g_uea2_leak_fst.
+  - apply snow3g_uia2_leak_fst.
 Qed.
